@@ -436,6 +436,12 @@ func (maps *trackedMaps) trackTaggable(taggable Taggable, pointer string) error 
 			return fmt.Errorf("%s: %w", op, err)
 		}
 		v := reflect.ValueOf(foundMap)
+		if v.Kind() == reflect.Ptr && !v.IsNil() && v.Elem().Kind() == reflect.Map {
+			// track the map itself, not the pointer to it: the map is what
+			// processUnfiltered finds when it reaches the value holding the
+			// pointer.
+			v = v.Elem()
+		}
 		ptr := v.Pointer()
 
 		// Are we already tracking this map?
